@@ -58,7 +58,7 @@ Proof. vm_compute. reflexivity. Qed.
    itself), the source then guards nothing - its expiry is a no-op -, and what the destination guarded before is disconnected
    exactly as if it had expired *)
 Theorem C11_scoped_move_construction :
-  forall pf R w src dst a, lookup (w_scoped w) src = Some a -> src <> dst ->
+  forall pf R w src dst a, lookup (w_scoped w) src = Some a -> lookup (w_scoped w) dst = None -> src <> dst ->
     exists w', step1 pf R w (OScMoveCtor src dst) = (w', None) /\
                w_impls w' = w_impls w /\ w_evs w' = w_evs w /\
                lookup (w_scoped w') dst = Some a /\ lookup (w_scoped w') src = Some (handle_moved_from a) /\
